@@ -1,6 +1,7 @@
 import Sm9.Proofs.Program
 import Sm9.Proofs.Program2
 import Sm9.Proofs.RepIndep
+import Sm9.Proofs.Bilinear
 /-!
 # C16 — Any history of group operations behaves like arithmetic in Z_r
 
@@ -122,6 +123,23 @@ theorem observe_pairings {p p' : G1} {qv qv' : G2} {a b : Fr} (hp : Rel1 p a) (h
     Api.pairing p qv = Api.pairing p' qv' ∧ Api.fast_pairing p qv = Api.fast_pairing p' qv' ∧
     (do let pr ← Api.prepare qv; Api.preparedPairing pr p) = (do let pr ← Api.prepare qv'; Api.preparedPairing pr p') :=
   Sm9.observe_pairings hp hp' hq hq'
+/-- **the pairing of two registers is the one predicted from their discrete logarithms**: with `g₀ = e(P1, P2)`, a G1
+    register with log `a` and a G2 register with log `b` pair to `g₀^(a·b)` — in all three entry points (bilinearity, C01) -/
+theorem observe_pairing_from_logs {p : G1} {qv : G2} {a b : Fr} (hp : Rel1 p a) (hq : Rel2 qv b) :
+    ∃ g0, Api.pairing (G.one : G1) (G.one : G2) = .ok g0 ∧
+      Api.pairing p qv = .ok (g0 ^ (b.val * a.val)) ∧ Api.fast_pairing p qv = .ok (g0 ^ (b.val * a.val)) ∧
+      (do let pr ← Api.prepare qv; Api.preparedPairing pr p) = .ok (g0 ^ (b.val * a.val)) := by
+  have h1 : G2.toAff (G.one : G2) = 1 • G2.toAff (G.one : G2) := (one_nsmul _).symm
+  obtain ⟨g0, hg0, hb⟩ := Miller.api_pairing_nsmul_right (G.one : G1) (G.one : G2) G1.one_valid G2.one_valid 1 h1
+    b.val qv hq.1 hq.2
+  obtain ⟨g1, hg1, ha⟩ := Miller.api_pairing_nsmul_left (G.one : G1) qv G1.one_valid hq.1 b.val hq.2 a.val p hp.1 hp.2
+  have e : g1 = g0 ^ b.val := by
+    have := hg1.symm.trans hb; injection this
+  subst e
+  rw [← pow_mul] at ha
+  refine ⟨g0, hg0, ha, ?_, ?_⟩
+  · rw [← Miller.api_pairing_eq_fast_pairing p qv hp.1 hq.1 b.val hq.2]; exact ha
+  · rw [Miller.api_prepared_eq_fast, ← Miller.api_pairing_eq_fast_pairing p qv hp.1 hq.1 b.val hq.2]; exact ha
 theorem fresh_related (e : Bool × Fr) : RegRel (fresh e) e := regRel_fresh e
 theorem last_operands {regs : List Reg} {ds : List (Bool × Fr)} (h : List.Forall₂ RegRel regs ds) :
     OptRel1 (lastOf regs).1 (alastOf ds).1 ∧ OptRel2 (lastOf regs).2 (alastOf ds).2 := lastOf_rel h
